@@ -49,6 +49,9 @@ def make_records(segs, walks, rnd, blank_names=False):
                 nm = "multi_read"
             lines.append(f"{nm}\t{L + 2}\t1\t{L + 1}\t+\t{path}\t{plen}\t{ps}\t{pe}\t{a}\t{L}\t{(ps * 7 + pe) % 61}\ttp:A:P\tcg:Z:{cg}\tNM:i:3{tail}")
     rnd.shuffle(lines)
+    # several alignments of ONE read on ONE walk stand on consecutive lines (split alignments are reported together)
+    multi = [l for l in lines if l.startswith("multi_read\t")]
+    lines = [l for l in lines if not l.startswith("multi_read\t")] + sorted(multi, key=lambda l: l.split("\t")[5])
     return lines
 
 
